@@ -1,6 +1,7 @@
 import Psa.ExpectedFacts
 import Psa.Config
 import Psa.ApiProofs
+import Psa.Setup
 /-! # C17 — configuration loads strictly, defaults safely, and is version-independent
 The strict universal decoder is modelled at the level of document trees (`Psa/Config.lean`) and tied by the correspondence on
 JSON and YAML renderings; the tokenizers themselves are outside the model. -/
@@ -273,6 +274,139 @@ theorem C17_chain (c : Cfg) (h : validate c = []) :
     ⟨(parseLevel c.defaults.warn).1, (parseVersion c.defaults.warnVersion).1⟩⟩, ?_, rfl, rfl, rfl, rfl⟩
   simp [toPolicy, ne _ h1, ne _ h3, ne _ h5, nv _ h2, nv _ h4, nv _ h6, h1, h2, h3, h4, h5, h6]
 
+
+/-! ## The controller's set-up (CompleteConfiguration / ValidateConfiguration, the webhook's LoadConfig + Setup) -/
+section setup
+open PSA.Setup
+
+theorem limits_pos : Generated.namespaceMaxPodsToCheck ≠ 0 ∧ Generated.namespacePodCheckTimeoutNs ≠ 0 := by decide
+
+/-- **Set-up accepts exactly the valid configurations**: a controller given every dependency and a configuration is
+    completed and validated without error iff the configuration passes validation — and then the default policy it
+    enforces is the one the configuration states, field for field. -/
+theorem C17_setup_iff (cfg : Cfg) :
+    (∃ c, complete (fresh cfg) = .ok c ∧ validateCtl c = none) ↔ validate cfg = [] := by
+  constructor
+  · rintro ⟨c, hc, hv⟩
+    simp only [complete, fresh] at hc
+    split at hc
+    · exact absurd hc (by simp)
+    · injection hc with hc
+      subst hc
+      simp only [validateCtl] at hv
+      by_cases h : validate cfg = []
+      · exact h
+      · simp [h] at hv
+  · intro h
+    obtain ⟨p, hp, _⟩ := C17_chain cfg h
+    refine ⟨_, by simp only [complete, fresh, hp]; rfl, ?_⟩
+    simp [validateCtl, h, hp, limits_pos.1, limits_pos.2]
+
+theorem C17_setup_enforces_stated (cfg : Cfg) (c : Ctl) (hc : complete (fresh cfg) = .ok c) (hv : validateCtl c = none) :
+    c.defaultPolicy = some
+      ⟨⟨(parseLevel cfg.defaults.enforce).1, (parseVersion cfg.defaults.enforceVersion).1⟩,
+       ⟨(parseLevel cfg.defaults.audit).1, (parseVersion cfg.defaults.auditVersion).1⟩,
+       ⟨(parseLevel cfg.defaults.warn).1, (parseVersion cfg.defaults.warnVersion).1⟩⟩ ∧ c.cfg = some cfg := by
+  have hval : validate cfg = [] := (C17_setup_iff cfg).mp ⟨c, hc, hv⟩
+  obtain ⟨p, hp, he, ha, hw, _⟩ := C17_chain cfg hval
+  simp only [complete, fresh, hp] at hc
+  injection hc with hc
+  subst hc
+  refine ⟨?_, rfl⟩
+  show some p = _
+  congr 1
+  cases p
+  simp_all
+
+/-- the whole chain from the file: the webhook serves iff the document loads and validates, and then with the stated policy
+    and the stated exemptions; otherwise it refuses to start -/
+theorem C17_webhook_setup (d : Option Doc) :
+    (∀ p ex, setup d = .serving p ex → ∃ cfg, load d = some cfg ∧ validate cfg = [] ∧ toPolicy cfg.defaults = some p ∧ ex = cfg.exemptions) ∧
+    (∀ cfg, load d = some cfg → validate cfg = [] → ∃ p, setup d = .serving p cfg.exemptions ∧ toPolicy cfg.defaults = some p) ∧
+    (load d = none → setup d = .loadError) ∧
+    (∀ cfg, load d = some cfg → validate cfg ≠ [] → ∃ e, setup d = .setupError e) := by
+  refine ⟨?_, ?_, ?_, ?_⟩
+  · intro p ex h
+    simp only [setup] at h
+    split at h
+    · exact absurd h (by simp)
+    · rename_i cfg hl
+      refine ⟨cfg, hl, ?_⟩
+      split at h
+      · exact absurd h (by simp)
+      · rename_i c hc
+        split at h
+        · exact absurd h (by simp)
+        · rename_i hv
+          have hval := (C17_setup_iff cfg).mp ⟨c, hc, hv⟩
+          obtain ⟨q, hq, _⟩ := C17_chain cfg hval
+          simp only [complete, fresh, hq] at hc
+          injection hc with hc
+          subst hc
+          simp only [Outcome.serving.injEq] at h
+          exact ⟨hval, by rw [hq, h.1], h.2.symm⟩
+  · intro cfg hl hval
+    obtain ⟨c, hc, hv⟩ := (C17_setup_iff cfg).mpr hval
+    obtain ⟨q, hq, _⟩ := C17_chain cfg hval
+    refine ⟨q, ?_, hq⟩
+    have hdp : c.defaultPolicy = some q := by
+      simp only [complete, fresh, hq] at hc
+      injection hc with hc
+      subst hc
+      rfl
+    simp only [setup, hl, hc, hv, hdp]
+  · intro hl
+    simp [setup, hl]
+  · intro cfg hl hbad
+    simp only [setup, hl]
+    cases hc : complete (fresh cfg) with
+    | error e => exact ⟨e, rfl⟩
+    | ok c =>
+      cases hv : validateCtl c with
+      | some e => exact ⟨e, by simp only [hv]⟩
+      | none => exact absurd ((C17_setup_iff cfg).mp ⟨c, hc, hv⟩) hbad
+
+/-- ValidateConfiguration notices a controller that was never completed, and one whose configuration was exchanged after
+    completion for one that states another policy -/
+theorem C17_validate_needs_complete (c : Ctl) (h : c.defaultPolicy = none) : validateCtl c ≠ none := by
+  simp only [validateCtl]
+  cases c.cfg with
+  | none => simp
+  | some cfg =>
+    by_cases hv : validate cfg = []
+    · simp only [hv, ne_eq, not_true_eq_false, ↓reduceIte]
+      cases toPolicy cfg.defaults with
+      | none => simp
+      | some p => simp [h]
+    · simp [hv]
+
+theorem C17_validate_detects_exchange (cfg cfg' : Cfg) (c : Ctl) (hc : complete (fresh cfg) = .ok c)
+    (hdiff : toPolicy cfg'.defaults ≠ toPolicy cfg.defaults) : validateCtl { c with cfg := some cfg' } ≠ none := by
+  simp only [complete, fresh] at hc
+  split at hc
+  · exact absurd hc (by simp)
+  · rename_i p hp
+    injection hc with hc
+    subst hc
+    simp only [validateCtl]
+    by_cases hv : validate cfg' = []
+    · simp only [hv, ne_eq, not_true_eq_false, ↓reduceIte]
+      cases hq : toPolicy cfg'.defaults with
+      | none => simp
+      | some q =>
+        have : q ≠ p := by intro e; apply hdiff; rw [hq, hp, e]
+        simp [this]
+    · simp [hv]
+
+/-- non-vacuity: a concrete document for which the webhook serves with a non-trivial policy, and one it refuses -/
+example : setup (some [(b!"apiVersion", .str (group ++ b!"/v1")), (b!"kind", .str kindName),
+    (b!"defaults", .obj [(b!"enforce", .str b!"baseline"), (b!"audit-version", .str b!"v1.25")]),
+    (b!"exemptions", .obj [(b!"namespaces", .list [.str b!"kube-system"])])]) =
+    .serving ⟨⟨.baseline, .latest⟩, ⟨.privileged, .mm 1 25⟩, ⟨.privileged, .latest⟩⟩ ⟨[], [b!"kube-system"], []⟩ := by decide
+example : setup (some [(b!"apiVersion", .str (group ++ b!"/v1")), (b!"kind", .str kindName),
+    (b!"exemptions", .obj [(b!"runtimeClasses", .list [.str b!"a", .str b!"a"])])]) = .setupError .invalid := by decide
+end setup
+
 /-- tie obligation (F9): loading, defaulting, validating and converting a configuration write no state that outlives the
     call (no package-level cache, no sync.Once, nothing through a receiver) — two loads cannot influence each other -/
 theorem C17_loader_keeps_no_state :
@@ -290,4 +424,9 @@ theorem C17_loader_keeps_no_state :
 #print axioms C17_validate_iff
 #print axioms C17_chain
 #print axioms C17_loader_keeps_no_state
+#print axioms C17_setup_iff
+#print axioms C17_setup_enforces_stated
+#print axioms C17_webhook_setup
+#print axioms C17_validate_needs_complete
+#print axioms C17_validate_detects_exchange
 end PSA.Props
